@@ -1,6 +1,6 @@
 #!/bin/bash
-# Mechanical rewrite test (DESIGN.md §13.2e): applies one behaviour-preserving expression rewrite
-# (gofmt -r) at a time to every non-test Go file of a scratch copy of /repo, keeps the copy if it
+# Mechanical rewrite test (DESIGN.md §13.2e): applies one behaviour-preserving rewrite (an expression
+# rule of gofmt -r, or a statement-level rule of tools/astrw) at a time to every non-test Go file of a scratch copy of /repo, keeps the copy if it
 # builds, vets and passes the test suite, runs all 18 quick checks on it and reports every check that
 # is not silent. Every line "ALARM ..." is a false alarm of the checker.
 #
@@ -35,14 +35,26 @@ mul2shl|a * 4 -> a << 2
 shl8mul|a << 8 -> a * 256
 lenzero|len(a) == 0 -> len(a) < 1
 gt0|a > 0 -> a >= 1
-lt0|a < 0 -> a <= -1'
+lt0|a < 0 -> a <= -1
+ast-swapelse|if c {A} else {B}  ->  if !(c) {B} else {A}
+ast-incdec|x++  ->  x += 1
+ast-opassign|x op= y  ->  x = x op (y)
+ast-andsplit|if a && b {X}  ->  if a { if b {X} }
+ast-orsplit|if a || b {..return}  ->  if a {..return}; if b {..return}
+ast-forbreak|for c {B}  ->  for { if !(c) {break}; B }
+ast-if2switch|if / else if / else chain  ->  switch { case ...: }'
 total=0; kept=0; alarms=0
 while IFS='|' read -r tag rule; do
   if [ $# -gt 0 ] && ! echo " $* " | grep -q " $tag "; then continue; fi
   total=$((total+1))
   d=$(mktemp -d $TMP/xzv-rewrite-XXXXXX)
   cp -a /repo/. $d/ && rm -rf $d/.git
-  ( cd $d && gofmt -r "$rule" -w $(find . -name '*.go' ! -name '*_test.go') 2>/dev/null )
+  case $tag in
+  ast-*) # statement-level rewrites: tools/astrw (go/ast), built on first use
+    [ -x $TMP/xzv-astrw ] || ( cd /verif/tools/astrw && go build -o $TMP/xzv-astrw . )
+    ( cd $d && $TMP/xzv-astrw ${tag#ast-} $(find . -name '*.go' ! -name '*_test.go') ) ;;
+  *) ( cd $d && gofmt -r "$rule" -w $(find . -name '*.go' ! -name '*_test.go') 2>/dev/null ) ;;
+  esac
   if ! ( cd $d && go build ./... 2>/dev/null && go vet ./... >/dev/null 2>&1 && go test -count=1 ./... >/dev/null 2>&1 ); then
     echo "skip  $tag (does not build / vet / pass the suite)"; rm -rf $d; continue
   fi
